@@ -107,6 +107,10 @@ def r02_1(ctx, m):
     if run is None:
         raise AnalysisError("R02.1", view.relpath, "view does not call the streaming generators")
     ctx.analysed_func(run)
+    from ..core import sink_into_branches
+
+    _keep = lambda c: any(isinstance(x, ast.Call) and isinstance(x.func, ast.Attribute) and x.func.attr == "read_line" for x in ast.walk(c.node))  # noqa: E731
+    run = tail_inlined(repo, sink_into_branches(tail_inlined(repo, run, keep=_keep)), keep=_keep)
     n_loops = 0
     for loop in [n for n in walk_own(run.node) if isinstance(n, ast.For)]:
         it = loop.iter
